@@ -7,7 +7,7 @@ Lemma info_from_ip_cases enabled db i : i <> BadIP ->
   if negb enabled then ([], false)
   else if negb (is_global_unicast i) then (cc_XL, false)
   else match db i with
-       | DbErr => (cc_XD, true)
+       | DbErr _ => (cc_XD, true)
        | DbOk c => (match c with [] => cc_ZZ | _ => c end, true)
        end.
 Proof. destruct i; [reflexivity | reflexivity | congruence]. Qed.
@@ -20,7 +20,7 @@ Lemma location_label_table_lemma enabled db a :
   (parsable a = true -> enabled = false -> lab = []) /\
   (parsable a = true -> enabled = true -> is_global_unicast (addr_ip a) = false -> lab = cc_XL) /\
   (parsable a = true -> enabled = true -> is_global_unicast (addr_ip a) = true ->
-     db (addr_ip a) = DbErr -> lab = cc_XD) /\
+     forall p, db (addr_ip a) = DbErr p -> lab = cc_XD) /\
   (parsable a = true -> enabled = true -> is_global_unicast (addr_ip a) = true ->
      db (addr_ip a) = DbOk [] -> lab = cc_ZZ) /\
   (forall c, parsable a = true -> enabled = true -> is_global_unicast (addr_ip a) = true ->
@@ -38,7 +38,7 @@ Proof.
   split; [intros; discriminate|].
   split; [intros _ ->; reflexivity|].
   split; [intros _ -> ->; reflexivity|].
-  split; [intros _ -> -> ->; reflexivity|].
+  split; [intros _ -> -> p ->; reflexivity|].
   split; [intros _ -> -> ->; reflexivity|].
   intros c _ -> -> -> Hc. cbn. destruct c; [congruence|reflexivity].
 Qed.
@@ -48,14 +48,14 @@ Lemma cases_exhaustive_lemma enabled db a :
   parsable a = false \/
   (parsable a = true /\ enabled = false) \/
   (parsable a = true /\ enabled = true /\ is_global_unicast (addr_ip a) = false) \/
-  (parsable a = true /\ enabled = true /\ is_global_unicast (addr_ip a) = true /\ db (addr_ip a) = DbErr) \/
+  (parsable a = true /\ enabled = true /\ is_global_unicast (addr_ip a) = true /\ exists p, db (addr_ip a) = DbErr p) \/
   (parsable a = true /\ enabled = true /\ is_global_unicast (addr_ip a) = true /\ db (addr_ip a) = DbOk []) \/
   (exists c, parsable a = true /\ enabled = true /\ is_global_unicast (addr_ip a) = true /\ db (addr_ip a) = DbOk c /\ c <> []).
 Proof.
   destruct (parsable a); [|left; reflexivity]. right.
   destruct enabled; [|left; split; reflexivity]. right.
   destruct (is_global_unicast (addr_ip a)); [|left; repeat split; reflexivity]. right.
-  destruct (db (addr_ip a)) as [|c]; [left; repeat split; reflexivity|]. right.
+  destruct (db (addr_ip a)) as [p|c]; [left; repeat split; try reflexivity; exists p; reflexivity|]. right.
   destruct c as [|x r]; [left; repeat split; reflexivity|]. right.
   exists (x :: r). repeat split; try reflexivity. discriminate.
 Qed.
